@@ -1,41 +1,37 @@
 //! simctl: deterministic simulation with fault injection for the 8086 emulator CLI.
+#![allow(dead_code)]
 // the real driver sources of /repo's binary crate (must be named `driver` at the crate root)
 #[path = "/repo/src/driver/mod.rs"]
 #[allow(dead_code, unused_imports)]
 mod driver;
 
+mod case;
+mod dispatch;
+mod gen;
 mod history;
+mod multi;
+mod oracle;
 mod rng;
+mod runner;
 mod scenario;
+mod session;
+mod supervisor;
 mod world;
-
-use history::*;
-use scenario::*;
 
 fn main() {
     let args: Vec<String> = std::env::args().collect();
-    match args.get(1).map(|s| s.as_str()) {
-        Some("smoke") => smoke(),
+    let code = match args.get(1).map(|s| s.as_str()) {
+        Some("check") => supervisor::check_main(&args[2..]),
+        Some("worker") => supervisor::worker_main(&args[2..]),
+        Some("replay") => supervisor::replay_main(&args[2..]),
+        Some("one") => supervisor::one_main(&args[2..]),
+        Some("gen") => supervisor::gen_main(&args[2..]),
         _ => {
-            eprintln!("usage: simctl smoke");
-            std::process::exit(2);
+            eprintln!("usage: simctl check <PROP> [--tier quick|thorough] [--runs N] [--workers W]");
+            eprintln!("       simctl replay <file>");
+            eprintln!("       simctl one <PROP> <seed> <run> [--dump]");
+            2
         }
-    }
-}
-
-fn smoke() {
-    let src = std::fs::read("/repo/examples/addition.s").unwrap();
-    let mut s = Scenario::new(&src);
-    s.interpreted = true;
-    s.stdin.bytes = Bytes(b"n\nprint reg\nn\n".to_vec());
-    let t = std::time::Instant::now();
-    let h = world::run_cli(&s);
-    let el = t.elapsed();
-    for e in &h.events {
-        match e {
-            Event::Probe { idx, code, mem, .. } => println!("Probe idx={} code={:?} memdelta={}", idx, code, mem.len()),
-            e => println!("{:?}", e),
-        }
-    }
-    println!("self_check: {:?}  digest {:016x}  elapsed {:?}", world::self_check(&h), h.digest(), el);
+    };
+    std::process::exit(code);
 }
